@@ -17,7 +17,7 @@ from harness import core, gen, problems
 from harness import solvermodel as sm
 from harness.core import F
 
-PROPS_MODULES = ["Pdq.Props.C02"]
+PROPS_MODULES = ["Pdq.Props.C02", "Pdq.Props.SqrtRefine"]
 LEVEL = "proof"
 TOL = 1e-9  # relative in the preconditioned metric, after division by the conditioning factor of the step
 
@@ -39,7 +39,23 @@ def random_config(ctx, strategy="filter", it=0):
         base = float(2.0 ** rng.integers(-3, 4))
     else:
         base = [float(2.0 ** rng.integers(-3, 4)) for _ in range(d)]
-    cfg = sm.Config(fact=fact, solver=solver, strategy=strategy, lin=lin, q=q, damp=damp, init=init, base_scale=base)
+    prior, diffuse, cinit = "iwp", 0, False
+    r = rng.random()
+    if r < 0.25 and q - order >= 1:
+        diffuse = int(rng.integers(1, min(2, q - order) + 1))
+        cinit = bool(rng.random() < 0.7)
+    elif r < 0.4 and fact == "dense" and solver in ("solver", "mle", "mle_nocorr"):
+        prior = gen.pick(rng, ["ou", "matern"])
+        q = min(q, 4)
+    elif r < 0.5:
+        cinit = True
+    regular_S0 = (init != "exact") or damp > 0.0 or (order >= q + 1 - diffuse)
+    if cinit and solver.startswith("mle") and not regular_S0:
+        # the MLE init term whitens the residual with solve_tril: for a singular innovation covariance the real code returns
+        # NaN (0/0) -- same class as finding D8 (zero residual variance); not generated here, recorded in DESIGN 9.5
+        cinit = False
+    cfg = sm.Config(fact=fact, solver=solver, strategy=strategy, lin=lin, q=q, damp=damp, init=init, base_scale=base,
+                    prior=prior, diffuse=diffuse, constraint_init=cinit)
     return cfg, d, order
 
 
@@ -84,13 +100,19 @@ def refine_steps(ctx, cfg, d, field, u0s, t0, hs, sigp="step", with_bw=False):
 
     objs = sm.build(cfg, field, u0s, t0)
     solver, prior = objs["solver"], objs["prior"]
-    stepper = sm.ModelStepper(ctx, cfg, field, d, lam_of(cfg, d))
+    stepper = sm.ModelStepper(ctx, cfg, field, d, lam_of(cfg, d), prior=prior)
     state = solver.init(jnp.asarray(t0), prior, damp=cfg.damp)
     t = F(t0)
     case = case_of(cfg, field, u0s, t0, hs)
+    if check_init(ctx, cfg, stepper, prior, state, t, case, sigp) is False:
+        return objs
     for i, h in enumerate(hs):
         new = solver.step(state, dt=jnp.asarray(h), damp=cfg.damp)
         s0 = sm.state_slices(cfg, state)
+        if not sm.state_is_finite(new):
+            sig, why = sm.nonfinite_signature(ctx, cfg, stepper, s0, t, F(h))
+            ctx.violation(sig, why, dict(case, step=i))
+            return objs if "objs" in dir() else None
         try:
             ms, aux, info = stepper.step(s0, t, F(h), aux_of(cfg, state))
         except core.ModelError as e:
@@ -152,6 +174,49 @@ def refine_steps(ctx, cfg, d, field, u0s, t0, hs, sigp="step", with_bw=False):
     return objs
 
 
+def check_init(ctx, cfg, stepper, prior, state, t, case, sigp):
+    """`solver.init`: the state is the prior's initial Gaussian, conditioned on the constraint when `constraint_init` is set
+    (lstsq / minimum-norm gain), with an identity backward model; MLE bookkeeping starts at (rms of that residual, 1) or (0, 0)."""
+    n = stepper.N
+    ns = sm.normal_slices(cfg.fact, prior.init)
+    ms = [{"mean": m, "cov": C, "bw": sm.ident_pcond(n)} for m, C in ns]
+    mahas = None
+    import jax
+
+    aux_leaves = [np.asarray(x, dtype=np.float64) for x in jax.tree_util.tree_leaves(state.auxiliary) if np.asarray(x).dtype.kind == "f"]
+    if not sm.state_is_finite(state) or not all(np.all(np.isfinite(a)) for a in aux_leaves):
+        ctx.violation(f"{sigp}:init:nonfinite:{cfg.fact}:{cfg.solver}", "solver.init returned non-finite numbers (state or calibration bookkeeping) for a configuration whose exact result is finite", dict(case, step="init"))
+        return False
+    if cfg.constraint_init:
+        pv = [np.array([st["cov"][a, a] for a in range(n)], dtype=object) for st in ms]
+        try:
+            ms2, mahas, lins = stepper.init_update(ms, t)
+        except core.ModelError as e:
+            ctx.skip("model refused the initial-constraint update: " + e.ans[:60])
+            return
+        extra = stepper.gain_noise_scale(lins, [st["mean"] for st in ms], [st["cov"] for st in ms])
+        ms = ms2
+        ctx.count("constraint_init=True")
+    else:
+        pv, extra = None, None
+    s0 = sm.state_slices(cfg, state)
+    sm.compare_state(ctx, "init", s0, ms, TOL, dict(case, step="init"), f"{sigp}:init:{cfg.fact}:{cfg.solver}", scale_vars=pv, mean_extra=extra)
+    if cfg.solver.startswith("mle"):
+        r2, num = aux_of(cfg, state)
+        if cfg.constraint_init and mahas is not None and all(m_ >= 0 for m_ in mahas):
+            exp = stepper.rms2(mahas)
+            a = np.atleast_1d(sm.tofloat(np.array(r2 if isinstance(r2, list) else [r2], dtype=object)))
+            b = np.atleast_1d(sm.tofloat(np.array(exp if isinstance(exp, list) else [exp], dtype=object)))
+            dev = float(np.max(np.abs(a - b) / np.maximum(np.max(np.abs(b)), 1e-300)))
+            ctx.dev("init.mle.running_scale2", dev, 1e-8, case=dict(case, step="init"), sig=f"{sigp}:init:{cfg.fact}:mle:running-scale", what=f"initial MLE running scale^2 {a} vs model {b}")
+            if num != 1:
+                ctx.violation(f"{sigp}:init:mle:num_data", f"num_data after the initial update is {num}, expected 1", case)
+        elif not cfg.constraint_init and num != 0:
+            ctx.violation(f"{sigp}:init:mle:num_data", f"num_data without initial update is {num}, expected 0", case)
+    if int(state.num_steps) != 0:
+        ctx.violation(f"{sigp}:init:num_steps", "num_steps after init is not 0", case)
+
+
 def predicted_cov_float(ctx, stepper, st, h, info):
     """float predicted covariance of one slice (for conditioning only)"""
     s2 = info.get("scale2", Fraction(1))
@@ -191,7 +256,7 @@ def end_to_end(ctx, cfg, d, field, u0s, t0, hs, sigp="grid"):
     solver, prior = objs["solver"], objs["prior"]
     grid = np.concatenate([[t0], t0 + np.cumsum(hs)])
     sol = ivpsolve.solve_fixed_grid(solver=solver)(prior, grid=jnp.asarray(grid), damp=cfg.damp)
-    stepper = sm.ModelStepper(ctx, cfg, field, d, lam_of(cfg, d))
+    stepper = sm.ModelStepper(ctx, cfg, field, d, lam_of(cfg, d), prior=prior)
     state0 = solver.init(jnp.asarray(t0), prior, damp=cfg.damp)
     ms = sm.state_slices(cfg, state0)
     aux = (([Fraction(0)] * d if cfg.fact == "bd" else Fraction(0)), Fraction(0)) if cfg.solver.startswith("mle") else None
@@ -250,6 +315,26 @@ def end_to_end(ctx, cfg, d, field, u0s, t0, hs, sigp="grid"):
     return sol, traj, scale2, aux
 
 
+def probe_mle_init_singular(ctx, field):
+    """solver_mle with an initial-constraint update on an *exact* initial state (innovation covariance exactly zero, residual
+    exactly zero because the Taylor coefficients are consistent): the exact posterior is the unchanged state; the
+    quasi-MLE term is 0/0.  The real code whitens with solve_tril and returns NaN, which poisons every later output scale."""
+    import jax.numpy as jnp
+
+    for fact in ("dense", "iso", "bd"):
+        cfg = sm.Config(fact=fact, solver="mle", lin="ts0", q=2, init="exact", constraint_init=True)
+        objs = sm.build(cfg, field, [np.array([0.5, -0.25])], 0.25)
+        st = objs["solver"].init(jnp.asarray(0.25), objs["prior"], damp=0.0)
+        _c, running, num = st.auxiliary
+        ok_state = bool(np.all(np.isfinite(np.asarray(st.u.mean_flat)))) and bool(np.all(np.isfinite(np.asarray(st.u.cholesky_flat))))
+        if not ok_state:
+            ctx.violation(f"mle:init-constraint:exact-state:nan-state:{fact}", "solver_mle.init returns a non-finite state for an exact initial state with constraint_init", {"config": cfg.key()})
+        if not np.all(np.isfinite(np.asarray(running))):
+            ctx.violation("mle:init-constraint:singular-innovation:nan", "solver_mle.init with constraint_init on an exact (zero-covariance) initial state: the initial quasi-MLE term is 0/0 and the running output scale becomes NaN",
+                          {"config": cfg.key(), "field": field.describe(), "running": str(np.asarray(running))})
+        ctx.case({"probe": "mle-init-singular", "fact": fact})
+
+
 def run(ctx):
     import jax
 
@@ -263,13 +348,33 @@ def run(ctx):
         "linearisation (value/Jacobian of the polynomial field at the model's exact predicted mean) is evaluated on the Python side in exact arithmetic; the model of `linearize` itself is C11",
         "IWP prior with taylor_point_prior; exponential priors and MAP Taylor points are covered by C09/C19, not here",
     ]
-    n = ctx.n(18, 240)
+    # deterministic corpus first: rare conjunctions of options that random sampling may miss in a quick run
+    # (each: one non-autonomous polynomial field, two steps)
+    corpus_cfgs = [
+        sm.Config(fact="bd", solver="solver", lin="ts1", q=2, damp=0.125),
+        sm.Config(fact="iso", solver="solver", lin="ts1", q=2, damp=0.125, init="inexact"),
+        sm.Config(fact="dense", solver="dynamic_relin", lin="ts1", q=2),
+        sm.Config(fact="bd", solver="dynamic_relin", lin="ts0", q=3, init="inexact"),
+        sm.Config(fact="dense", solver="mle", lin="ts0", q=3, diffuse=3, constraint_init=True),
+        sm.Config(fact="iso", solver="mle_nocorr", lin="ts0", q=2, init="inexact", constraint_init=True),
+        sm.Config(fact="bd", solver="mle", lin="ts1", q=2, damp=0.125, constraint_init=True, base_scale=[0.5, 2.0]),
+        sm.Config(fact="dense", solver="solver", lin="ts1", q=3, prior="ou"),
+        sm.Config(fact="dense", solver="mle", lin="ts0", q=2, prior="matern", init="inexact"),
+        sm.Config(fact="iso", solver="dynamic", lin="ts1", q=4, damp=0.125, base_scale=4.0),
+        sm.Config(fact="dense", solver="solver", lin="ts0", q=3, diffuse=1, constraint_init=True, base_scale=[0.25, 4.0]),
+    ]
+    cf = problems.PolyField(2, 1, [[(Fraction(1, 2), (1, 1, 0)), (Fraction(-3, 4), (0, 0, 2))], [(Fraction(5, 8), (2, 0, 1)), (Fraction(1, 4), (0, 1, 0))]])
+    for cfg in corpus_cfgs:
+        refine_steps(ctx, cfg, 2, cf, [np.array([0.5, -0.25])], 0.25, [0.125, 0.046875], sigp="step")
+        ctx.count("corpus-config")
+    probe_mle_init_singular(ctx, cf)
+    n = ctx.n(14, 240)
     for it in range(n):
         cfg, d, order = random_config(ctx, "filter", it)
         field, u0s, t0 = make_problem(ctx, cfg, d, order)
         nst = int(ctx.rng.integers(2, 4))
         hs = [float(2.0 ** ctx.rng.integers(-10, 1)) * float(gen.pick(ctx.rng, [1.0, 0.75, 1.5])) for _ in range(nst)]
-        for k in ("fact", "solver", "lin", "init"):
+        for k in ("fact", "solver", "lin", "init", "prior", "diffuse"):
             ctx.count(f"{k}={getattr(cfg, k)}")
         ctx.count(f"q={cfg.q}")
         ctx.count(f"damp={'0' if cfg.damp == 0 else '>0'}")
